@@ -265,6 +265,25 @@ func suffixResliceOfSameField(st *ssa.Store) string {
 	if !ok {
 		return "destination is not a field"
 	}
+	// a helper that is handed the field and returns it or a suffix of it
+	if call, isCall := st.Val.(*ssa.Call); isCall {
+		if h := call.Call.StaticCallee(); h != nil && fnInModule(h) && len(h.Blocks) > 0 && h.Signature.Results().Len() == 1 {
+			for i, a := range call.Call.Args {
+				ld, ok := a.(*ssa.UnOp)
+				if !ok || ld.Op != token.MUL || i >= len(h.Params) {
+					continue
+				}
+				fa2, ok := ld.X.(*ssa.FieldAddr)
+				if !ok || fa2.Field != fa.Field || fa2.X != fa.X {
+					continue
+				}
+				if why := returnsSuffixOfParam(h, h.Params[i]); why != "" {
+					return "helper " + h.Name() + ": " + why
+				}
+				return ""
+			}
+		}
+	}
 	sl, ok := st.Val.(*ssa.Slice)
 	if !ok {
 		return "value is " + describeValue(st.Val) + ", not a re-slice"
@@ -279,6 +298,51 @@ func suffixResliceOfSameField(st *ssa.Store) string {
 	fa2, ok := ld.X.(*ssa.FieldAddr)
 	if !ok || fa2.Field != fa.Field || fa2.X != fa.X {
 		return "re-sliced operand is a different field or object"
+	}
+	return ""
+}
+
+// returnsSuffixOfParam: every return of h hands back its slice parameter par or par[k:].
+func returnsSuffixOfParam(h *ssa.Function, par *ssa.Parameter) string {
+	n := 0
+	var check func(v ssa.Value, seen map[ssa.Value]bool) string
+	check = func(v ssa.Value, seen map[ssa.Value]bool) string {
+		if seen[v] {
+			return ""
+		}
+		seen[v] = true
+		switch x := v.(type) {
+		case *ssa.Parameter:
+			if x == par {
+				return ""
+			}
+		case *ssa.Slice:
+			if x.High != nil || x.Max != nil {
+				return "a returned re-slice has an upper bound (drops root-side frames)"
+			}
+			return check(x.X, seen)
+		case *ssa.Phi:
+			for _, e := range x.Edges {
+				if why := check(e, seen); why != "" {
+					return why
+				}
+			}
+			return ""
+		}
+		return "returns " + describeValue(v) + ", which is not a suffix of its argument"
+	}
+	for _, b := range h.Blocks {
+		ret, ok := b.Instrs[len(b.Instrs)-1].(*ssa.Return)
+		if !ok {
+			continue
+		}
+		n++
+		if why := check(ret.Results[0], map[ssa.Value]bool{}); why != "" {
+			return why
+		}
+	}
+	if n == 0 {
+		return "no return"
 	}
 	return ""
 }
